@@ -18,6 +18,10 @@ sys.path.insert(0, ROOT)
 os.environ.setdefault("PYTHONDONTWRITEBYTECODE", "1")
 sys.dont_write_bytecode = True
 
+import logging  # noqa: E402
+
+logging.disable(logging.CRITICAL)  # the repository's own log output is not part of a check's output
+
 import z3  # noqa: E402
 
 from pyvc import api, stubs_builtin  # noqa: E402
@@ -134,9 +138,15 @@ def main(argv=None):
 
     lock = threading.Lock()
 
+    known_clauses = {f["clause"] for f in load_known().get("open", []) if f["property"] == prop}
+
     def work(job):
         idx, text = job
         rep, ob = obligations[idx]
+        if ob.clause in known_clauses:
+            # a recorded open finding: one short attempt, no retries (it is expected not to discharge)
+            r = solve_text(text, ob.clause, min(budget, 6))
+            return idx, (r.status, r.backend, r.time, r.detail, r.file)
         r = solve_text(text, ob.clause, budget, both=(tier == "thorough"))
         if r.status in ("unknown", "refuted"):
             # `sat` with partially unfolded spec functions is not a counterexample: unfold further and
@@ -206,11 +216,17 @@ def main(argv=None):
             witness = {"error": f"replay machinery failed: {e!r}", "trace": traceback.format_exc()[-1500:]}
         confirmed = bool(witness and witness.get("confirmed"))
         if finding is not None:
-            # a known finding suppresses only the listed failing input / clause
-            if confirmed and finding.get("witness_key") and witness.get("key") not in finding["witness_key"]:
-                pass  # different witness: still report below only if not matching at all
-            known_hits.append((finding, witness))
-            continue
+            # a known finding suppresses only the failing exits (path classes) it lists: a failing instance at
+            # another exit of the function, or more failing instances than recorded, is a different violation
+            exits = sorted({obligations[i][1].meta.get("exit") for i in bad}, key=lambda x: (x is None, x))
+            allowed = finding.get("exits")
+            extra = [e for e in exits if allowed is not None and e not in allowed]
+            too_many = finding.get("max_instances") is not None and len(bad) > finding["max_instances"]
+            if not extra and not too_many:
+                known_hits.append((finding, witness))
+                continue
+            witness = dict(witness or {})
+            witness["beyond_known_finding"] = {"failing_exits": exits, "known_exits": allowed, "failing_instances": len(bad), "known_max": finding.get("max_instances")}
         if d["refuted"] or in_ledger or confirmed:
             path = os.path.join(replay_dir, hashlib.sha1(clause.encode()).hexdigest()[:12] + ".json")
             json.dump(
@@ -223,6 +239,8 @@ def main(argv=None):
                     "smt_file": st[4],
                     "witness": witness,
                     "meta": ob.meta,
+                    "failing_exits": sorted({obligations[i][1].meta.get("exit") for i in bad}, key=lambda x: (x is None, x)),
+                    "failing_instances": len(bad),
                 },
                 open(path, "w"),
                 indent=1,
@@ -255,7 +273,10 @@ def main(argv=None):
                 json.dump({"property": prop, "obligation": fl["clause"], "status": "bounded-check-failed", "witness": fl}, open(path, "w"), indent=1, default=str)
                 violations.append((fl["clause"], path, True))
 
-    n_obl = len(obligations)
+    known_clause_hits = {f["clause"] for f, _ in known_hits}
+    n_known = sum(by_clause[c]["n"] - by_clause[c]["discharged"] for c in known_clause_hits if c in by_clause)
+    # obligations of recorded open findings are reported separately (they are expected not to discharge)
+    n_obl = len(obligations) - n_known
     n_dis = sum(1 for r in results.values() if r[0] == "discharged")
     backends = {}
     for r in results.values():
@@ -310,7 +331,8 @@ def main(argv=None):
             "bounded_standins": standins,
             "undecided": [{"what": a, "why": b} for a, b in undecided],
             "gone_since_ledger": gone,
-            "known_findings": [f["clause"] for f, _ in known_hits],
+            "known_findings": sorted({f["clause"] for f, _ in known_hits}),
+            "known_finding_obligations_not_counted": n_known,
         },
         "assumptions": assumptions + [f"trusted: {t}" for t in trusted],
         "wall_s": round(wall, 2),
